@@ -159,9 +159,18 @@ def check_disk(case):
     try:
         argv = disk.cli_args(prog["cfg"]) + ["-f", "null", "features"]
         run = disk.run_inproc(proj, argv, prog)
+        interrupted = any(k == "KeyboardInterrupt" for _i, k in prog.get("hook_faults") or [])
+        if interrupted and isinstance(run.escaped, KeyboardInterrupt):
+            res.label("disk:interrupt-escaped")     # before_all / after_all: the interrupt leaves run() itself
+            return res
         if run.escaped is not None:
             res.fail("C14.disk.escape", "Runner.run() raised %r" % (run.escaped,))
             return res
+        if interrupted:
+            res.label("disk:interrupted-in-hook")
+            hooks_at = [h for i, h in enumerate(run.hooks) if [i, "KeyboardInterrupt"] in [list(x) for x in prog["hook_faults"]]]
+            if any(h[0] in ("before_step", "after_step") for h in hooks_at):
+                res.label("disk:interrupted-in-step-hook")
         written = {"feature": len(prog["features"]), "rule": 0, "scenario": 0, "step": 0}
         for feat in prog["features"]:
             written["rule"] += sum(1 for it in feat["items"] if it["k"] == "r")
@@ -342,6 +351,9 @@ def disk_case(draw):
         names = draw(st.lists(st.sampled_from(["a0.feature", "f0x.feature", "f1x.feature", "zz.feature", "sub/e.feature"]),
                               min_size=1, max_size=3, unique=True))
         case["empty_files"] = dict((n, draw(st.integers(0, 3))) for n in names)
+    if not prog["cfg"].get("dry_run") and draw(st.integers(0, 2)) == 0:
+        # Ctrl-C while a hook runs: the run is cut short, the summary on stdout still accounts for everything written
+        prog["hook_faults"] = [[draw(st.integers(0, 10000)), "KeyboardInterrupt"]]
     return case
 
 
@@ -354,10 +366,11 @@ def explore(rec):
 
 def required_labels(tier):
     return ["status:" + s for s in ["passed", "failed", "error", "hook_error", "skipped", "untested", "undefined",
-                                    "pending", "pending_warn"]] + ["cut-short", "has-rule", "hook-fault", "dry-run", "interrupted-in-hook", "disk", "disk:feature-less-files"]
+                                    "pending", "pending_warn"]] + ["cut-short", "has-rule", "hook-fault", "dry-run", "interrupted-in-hook", "disk", "disk:feature-less-files", "disk:interrupted-in-step-hook"]
 
 
 KNOWN_PREDICATES = {}
 
 
 RULE = RULE + " " + ("Scenario statuses are read from the Scenario objects that ran, and the status class of every scenario (failed / error / passed) is demanded by the reference model (outcomes of the generated steps, injected hook and cleanup faults), not by behave's model.")
+RULE = RULE + " " + ('A third of the disk-route runs are interrupted (KeyboardInterrupt) inside a hook; the summary printed on the real stdout still counts every written element once.')
